@@ -146,8 +146,8 @@ def trig_var(ex, fn, argt, _depth=0):
     v = ex.fresh_real(fn); tab[key] = (v, argt)
     if polys is not None: ptab[pkey] = v
     # congruence with variables whose argument is syntactically different but may be equal in value
-    for k2, (v2, a2) in list(tab.items()):
-        if k2[0] == fn and k2 != key and len(a2) == len(argt) and v2 is not v:
+    for k2, (v2, a2) in list(tab.items()) if polys is not None else ():     # (If-arguments are defined by lifting, see _facts)
+        if k2[0] == fn and k2 != key and len(a2) == len(argt) and v2 is not v and all(_find_ite(x) is None for x in a2):
             ex.axioms.append(z3.Implies(z3.And(*[p == q for p, q in zip(a2, argt)]), v2 == v))
     if _depth < 24: _facts(ex, fn, argt, polys, v, _depth + 1)
     return v
